@@ -2,7 +2,7 @@
 import z3
 from vf.e1.sym import (Ref, SInt, SBool, SAtom, ATOMS, NONE_ID, is_sym, ITE, AND, OR, NOT, EQ, NE,
                        LT, LE, GE, GT, ADD, SUB, MIN, MAX, B, I, ite_chain, Unsupported, mkbool,
-                       mkint, atom_of, atom_concrete, lift)
+                       mkint, atom_of, atom_concrete, lift, IMPLIES)
 from vf.e1.heap import SList
 
 
@@ -77,6 +77,98 @@ class SGen:
         self.consumed = False      # raw bool
 
 
+class SText:
+    """a text whose content is not tabulated: an immutable rope (DAG) over concrete strings, label atoms,
+    small integers and guarded alternatives.  Used where code builds output text from symbolic parts and
+    the obligations need the text only up to equality (C16: non-interference and repeatability of writers).
+    kind: "leaf" (a: str | SAtom | SInt), "cat" (a, b ropes), "cond" (c raw bool, a, b ropes-or-None)"""
+    __slots__ = ("kind", "c", "a", "b")
+
+    def __init__(self, kind, a, b=None, c=None):
+        self.kind, self.a, self.b, self.c = kind, a, b, c
+
+    def __repr__(self):
+        return "SText(%s)" % self.kind
+
+    @staticmethod
+    def of(v):
+        return v if isinstance(v, SText) else SText("leaf", v)
+
+    @staticmethod
+    def cat(x, y):
+        if isinstance(x, str) and isinstance(y, str):
+            return x + y
+        if isinstance(x, str) and x == "":
+            return y
+        if isinstance(y, str) and y == "":
+            return x
+        return SText("cat", SText.of(x), SText.of(y))
+
+
+def text_eq(x, y, memo=None):
+    """sufficient condition (raw bool) for two ropes to denote the same text: same shape, equal leaves.
+    Two runs of the same deterministic code build ropes of the same shape; anything else is reported unequal."""
+    memo = {} if memo is None else memo
+    if x is y:
+        return True
+    key = (id(x), id(y))
+    if key in memo:
+        return memo[key]
+    if x is None or y is None:
+        r = x is None and y is None
+    elif not isinstance(x, SText) and not isinstance(y, SText):
+        r = _leaf_eq(x, y)
+    else:
+        x, y = SText.of(x), SText.of(y)
+        if x.kind != y.kind:
+            r = _flat_eq(x, y)
+        elif x.kind == "leaf":
+            r = _leaf_eq(x.a, y.a)
+        elif x.kind == "cat":
+            r = AND(text_eq(x.a, y.a, memo), text_eq(x.b, y.b, memo))
+            if r is False:
+                r = _flat_eq(x, y)
+        else:
+            r = AND(EQ(x.c, y.c), IMPLIES(x.c, text_eq(x.a, y.a, memo)), IMPLIES(NOT(x.c), text_eq(x.b, y.b, memo)))
+    memo[key] = r
+    return r
+
+
+def _leaf_eq(a, b):
+    if isinstance(a, tuple) or isinstance(b, tuple):
+        if isinstance(a, tuple) and isinstance(b, tuple) and a[0] == b[0] == "rep" and a[1] == b[1]:
+            return EQ(raw_int(a[2]), raw_int(b[2]))
+        return False
+    if isinstance(a, SInt) or isinstance(b, SInt) or (isinstance(a, int) and isinstance(b, int)):
+        if isinstance(a, (int, SInt)) and isinstance(b, (int, SInt)):
+            return EQ(raw_int(a), raw_int(b))
+        return False
+    if isinstance(a, (str, SAtom)) and isinstance(b, (str, SAtom)):
+        return EQ(to_atom(a).t, to_atom(b).t)
+    return False
+
+
+def _flatten(x, out):
+    if isinstance(x, SText) and x.kind == "cat":
+        _flatten(x.a, out)
+        _flatten(x.b, out)
+    elif isinstance(x, SText) and x.kind == "leaf":
+        _flatten(x.a, out)
+    elif isinstance(x, str) and out and isinstance(out[-1], str):
+        out[-1] = out[-1] + x
+    else:
+        out.append(x)
+    return out
+
+
+def _flat_eq(x, y):
+    fx, fy = _flatten(x, []), _flatten(y, [])
+    if len(fx) != len(fy):
+        return False
+    return AND(*[text_eq(p, q) if isinstance(p, SText) or isinstance(q, SText) else _leaf_eq(p, q)
+                 for p, q in zip(fx, fy)])
+
+
 class PyIter:
     """iterator over an SList (for iter()/next())"""
 
@@ -132,6 +224,9 @@ def merge(c, a, b):
         return b
     if a is b:
         return a
+    if isinstance(a, SText) or isinstance(b, SText):
+        if isinstance(a, (SText, str, SAtom, type(None))) and isinstance(b, (SText, str, SAtom, type(None))):
+            return SText("cond", a, b, c)
     ta, tb = type(a), type(b)
     from vf.e1.hier import HPath as _HP
     if isinstance(a, _HP) or isinstance(b, _HP):
@@ -224,6 +319,8 @@ def truth(v):
         return raw_bool(r)
     if isinstance(v, SOpt):
         return AND(NOT(v.isnone), truth(v.val))
+    if isinstance(v, SText):
+        raise Unsupported("truthiness of a text rope")
     if isinstance(v, Local):
         return "local"      # needs __bool__/__len__ dispatch by the interpreter
     if isinstance(v, (tuple, list, dict, set, frozenset)):
